@@ -135,20 +135,24 @@ impl<'a> Iterator for Fields<'a> {
     type Item = (&'a str, &'a str);
 
     fn next(&mut self) -> Option<Self::Item> {
-        match self.0.next() {
-            None => None,
-            Some(None) => self.next(),
-            Some(Some((k, v))) => Some((k.as_ref(), v.as_ref())),
+        loop {
+            match self.0.next() {
+                None => return None,
+                Some(None) => continue,
+                Some(Some((k, v))) => return Some((k.as_ref(), v.as_ref())),
+            }
         }
     }
 }
 
 impl DoubleEndedIterator for Fields<'_> {
     fn next_back(&mut self) -> Option<Self::Item> {
-        match self.0.next_back() {
-            None => None,
-            Some(None) => self.next_back(),
-            Some(Some((k, v))) => Some((k.as_ref(), v.as_ref())),
+        loop {
+            match self.0.next_back() {
+                None => return None,
+                Some(None) => continue,
+                Some(Some((k, v))) => return Some((k.as_ref(), v.as_ref())),
+            }
         }
     }
 }
@@ -184,20 +188,24 @@ impl Iterator for IntoIter {
     type Item = (Arc<str>, String);
 
     fn next(&mut self) -> Option<Self::Item> {
-        match self.iter.next() {
-            None => None,
-            Some(None) => self.next(),
-            Some(value) => value,
+        loop {
+            match self.iter.next() {
+                None => return None,
+                Some(None) => continue,
+                Some(value) => return value,
+            }
         }
     }
 }
 
 impl DoubleEndedIterator for IntoIter {
     fn next_back(&mut self) -> Option<Self::Item> {
-        match self.iter.next_back() {
-            None => None,
-            Some(None) => self.next_back(),
-            Some(value) => value,
+        loop {
+            match self.iter.next_back() {
+                None => return None,
+                Some(None) => continue,
+                Some(value) => return value,
+            }
         }
     }
 }
